@@ -504,7 +504,7 @@ func main() {
 		r.Finish("replay of one group")
 	}
 
-	ngroups := r.N(168, 2880)
+	ngroups := r.N(300, 7200)
 	if v := os.Getenv("C05_GROUPS"); v != "" { // development aid only; ./check never sets it
 		fmt.Sscanf(v, "%d", &ngroups)
 	}
@@ -541,7 +541,7 @@ func main() {
 		"class_nxdomain", "class_noerror", "rung_undecodable"} {
 		r.Require(c, 2)
 	}
-	r.Require("pairs_raw", int64(r.N(1500, 30000)))
+	r.Require("pairs_raw", int64(r.N(3000, 80000)))
 	r.Require("admission_strict", 5000)
 	r.Require("admission_declined_decodable", 1000)
 	r.Finish("distinct_nontrivial = distinct (config, transport, state family of the question, wire rung that served it in the raw world, reply class) tuples; " +
